@@ -24,11 +24,30 @@ fn trace() -> Vec<String> {
 fn trace() -> Vec<String> {
     Vec::new()
 }
+#[cfg(rash_verif)]
+fn tail_inputs() -> J {
+    rash_core::docopt::VERIF_TAIL_INPUTS.with(|t| {
+        let (a, o) = &*t.borrow();
+        json!([a, o])
+    })
+}
+#[cfg(not(rash_verif))]
+fn tail_inputs() -> J {
+    J::Null
+}
+#[cfg(rash_verif)]
+fn clear_trace() {
+    rash_core::docopt::VERIF_EXPANDED_USAGES.with(|t| t.borrow_mut().clear());
+    rash_core::docopt::VERIF_TAIL_INPUTS.with(|t| *t.borrow_mut() = (Vec::new(), Vec::new()));
+}
+#[cfg(not(rash_verif))]
+fn clear_trace() {}
 
 pub fn run(case: &J) -> J {
     let file = case["file"].as_str().unwrap().to_owned();
     let args: Vec<String> = case["args"].as_array().unwrap().iter().map(|x| x.as_str().unwrap().to_owned()).collect();
     let n = case["repeat"].as_u64().unwrap_or(1);
+    clear_trace();
     let mut outs: Vec<J> = Vec::new();
     for _ in 0..n {
         let o = once(&file, &args);
@@ -38,7 +57,11 @@ pub fn run(case: &J) -> J {
     }
     if case["trace"].as_bool().unwrap_or(false) {
         // the expanded usages in the order the last parse tried them (hook, --cfg rash_verif)
-        return json!({"outs": outs, "usages": trace()});
+        let us = trace();
+        if us.is_empty() {
+            return json!({"outs": outs});     // parse returned before its last stage
+        }
+        return json!({"outs": outs, "usages": us, "tail": tail_inputs()});
     }
     json!({"outs": outs})
 }
